@@ -10,8 +10,9 @@
        part => error, isJSON = "json" among the remaining parts, checkUnmarshal before the
        supported-type switch, first error wins, no tagged field => ErrNoFields, argument that is
        not a pointer to a struct => error;
-     - Fields.Secrets (`secrets_of`) with Go's path.Join/path.Clean on byte strings
-       (`path_join2`, `path_clean`: lexical, segment based);
+     - Fields.Secrets (`secrets_of`) with Go's path.Join/path.Clean on byte strings, for ALL prefixes
+       and tag names, clean or not (Base/Path.v: `go_join`/`go_clean` transcribe path.go's lazybuf
+       algorithm; `path_join2`/`path_clean` are the segment form, proved equal);
      - Fields.Apply / fieldInfo.apply (`apply`): per field LookupSecret(fullName) on the shared
        store (known => handle via secret_locked; unknown and lookups allowed => one request to the
        service, whose answer is an input, then lookup_install; unknown and lookups disabled =>
@@ -148,7 +149,9 @@ Definition parse_fields (a : arg) : perr + list pfield :=
   | AStruct _ | ANonStruct | ANil => inl ENotPtrStruct
   end.
 
-Definition full_name (pfx : bstr) (pf : pfield) : name := path_join2 pfx (psecret pf).
+(* path.Join(prefix, tag name) as the Go source computes it (Base/Path.v: go_join, the lazybuf
+   algorithm); = path_join2, the segment form (PathProofs.go_join2_is_path_join2) *)
+Definition full_name (pfx : bstr) (pf : pfield) : name := go_join [pfx; psecret pf].
 Definition secrets_of (pfx : bstr) (pfs : list pfield) : list name := map (full_name pfx) pfs.
 
 (* the tagged names as one reads them off the struct declaration (independent of parse_list) *)
